@@ -124,6 +124,101 @@ pub open spec fn cloned(h0: Heap, h1: Heap, list: VCell, head: VCell, tl: VCell,
     &&& head == VCell::Ptr(cells[0]) && tl == VCell::Ptr(cells[cells.len() - 1])
     &&& all_fresh(h0, cells) && heap_ext(h0, h1)
 }
+/// from `start`, cars.len() allocated pairs with the car fields `cars` lead to the very cell `end`
+pub open spec fn leads(h: Heap, start: VCell, cars: Seq<usize>, end: VCell) -> bool decreases cars.len() {
+    if cars.len() == 0 { start == end } else {
+        heap_live(h, start) && (heap_deref(h, start) matches VCell::Pair(a, d) && a == cars[0] && leads(h, VCell::Ptr(d), cars.subrange(1, cars.len() as int), end))
+    }
+}
+pub proof fn lemma_leads_preserved(h: Heap, h2: Heap, start: VCell, cars: Seq<usize>, end: VCell)
+    requires leads(h, start, cars, end), heap_ext(h, h2) ensures leads(h2, start, cars, end) decreases cars.len()
+{
+    if cars.len() > 0 { match heap_deref(h, start) { VCell::Pair(a, d) => { lemma_leads_preserved(h, h2, VCell::Ptr(d), cars.subrange(1, cars.len() as int), end); } _ => {} } }
+}
+pub proof fn lemma_leads_concat(h: Heap, a: VCell, c1: Seq<usize>, b: VCell, c2: Seq<usize>, e: VCell)
+    requires leads(h, a, c1, b), leads(h, b, c2, e) ensures leads(h, a, c1 + c2, e) decreases c1.len()
+{
+    if c1.len() == 0 { assert(c1 + c2 =~= c2); } else {
+        match heap_deref(h, a) { VCell::Pair(x, d) => {
+            lemma_leads_concat(h, VCell::Ptr(d), c1.subrange(1, c1.len() as int), b, c2, e);
+            assert((c1 + c2).subrange(1, (c1 + c2).len() as int) =~= c1.subrange(1, c1.len() as int) + c2);
+            assert((c1 + c2)[0] == c1[0]);
+        } _ => {} }
+    }
+}
+/// the links of a chain (without the distinctness of its cells)
+pub open spec fn links(h: Heap, cells: Seq<usize>, cars: Seq<usize>, endp: usize) -> bool {
+    &&& cells.len() == cars.len()
+    &&& forall|i: int| 0 <= i < cells.len() ==> heap_live(h, VCell::Ptr(cells[i]))
+            && heap_deref(h, VCell::Ptr(cells[i])) == VCell::Pair(#[trigger] cars[i], if i + 1 < cells.len() { cells[i + 1] } else { endp })
+}
+/// a chain is a path: from its k-th cell the remaining car fields lead to its end
+pub proof fn lemma_chain_leads(h: Heap, cells: Seq<usize>, cars: Seq<usize>, endp: usize, k: int)
+    requires links(h, cells, cars, endp), 0 <= k <= cells.len(),
+    ensures leads(h, if k < cells.len() { VCell::Ptr(cells[k]) } else { VCell::Ptr(endp) }, cars.subrange(k, cars.len() as int), VCell::Ptr(endp))
+    decreases cells.len() - k
+{
+    if k < cells.len() {
+        lemma_chain_leads(h, cells, cars, endp, k + 1);
+        let rest = cars.subrange(k, cars.len() as int);
+        assert(rest.subrange(1, rest.len() as int) =~= cars.subrange(k + 1, cars.len() as int));
+        assert(rest[0] == cars[k]);
+        assert(heap_live(h, VCell::Ptr(cells[k])));
+        assert(heap_deref(h, VCell::Ptr(cells[k])) == VCell::Pair(cars[k], if k + 1 < cells.len() { cells[k + 1] } else { endp }));
+    }
+}
+/// cells of a list with a live spine read the same in an extended heap
+pub proof fn lemma_lcell_same(h: Heap, h2: Heap, first: VCell, j: nat)
+    requires spine_live(h, first), heap_ext(h, h2) ensures lcell(h2, first, j) == lcell(h, first, j) decreases j
+{
+    if j > 0 { lemma_lcell_same(h, h2, first, (j - 1) as nat); match lcell(h, first, (j - 1) as nat) { VCell::Pair(a, d) => { assert(heap_live(h, VCell::Ptr(d))); } _ => {} } }
+}
+pub proof fn lemma_spine_live_preserved(h: Heap, h2: Heap, first: VCell)
+    requires spine_live(h, first), heap_ext(h, h2) ensures spine_live(h2, first)
+{
+    assert forall|j: nat| ((#[trigger] lcell(h2, first, j)) matches VCell::Pair(a, d) ==> heap_live(h2, VCell::Ptr(d))) by {
+        lemma_lcell_same(h, h2, first, j);
+        match lcell(h, first, j) { VCell::Pair(a, d) => { assert(heap_live(h, VCell::Ptr(d))); } _ => {} }
+    }
+}
+pub proof fn lemma_cars_of_same(h: Heap, h2: Heap, first: VCell, cars: Seq<usize>)
+    requires spine_live(h, first), heap_ext(h, h2), cars_of(h2, first, cars) ensures cars_of(h, first, cars)
+{
+    assert forall|i: int| 0 <= i < cars.len() implies ((#[trigger] lcell(h, first, i as nat)) matches VCell::Pair(a, d) && a == cars[i]) by { lemma_lcell_same(h, h2, first, i as nat); }
+    lemma_lcell_same(h, h2, first, cars.len());
+}
+/// a proper list has one sequence of car fields
+pub proof fn lemma_cars_unique(h: Heap, first: VCell, c1: Seq<usize>, c2: Seq<usize>)
+    requires cars_of(h, first, c1), cars_of(h, first, c2) ensures c1 == c2
+{
+    if c1.len() < c2.len() { let i = c1.len() as int; assert(lcell(h, first, i as nat) is Pair); assert(lcell(h, first, c1.len()) is Nil); }
+    if c2.len() < c1.len() { let i = c2.len() as int; assert(lcell(h, first, i as nat) is Pair); assert(lcell(h, first, c2.len()) is Nil); }
+    assert forall|i: int| 0 <= i < c1.len() implies c1[i] == c2[i] by { let x = lcell(h, first, i as nat); assert(x matches VCell::Pair(a, d) && a == c1[i]); assert(x matches VCell::Pair(a, d) && a == c2[i]); }
+    assert(c1 =~= c2);
+}
+/// Heap::get answers a cell that is not a pointer with that very cell (heap.rs: `_ => vcell`); unit `heap` has the same fact over
+/// its concrete view m_deref by definition
+#[verifier::external_body]
+pub proof fn axiom_deref_immediate(h: Heap, c: VCell) ensures !(c is Ptr) ==> heap_deref(h, c) == c {}
+/// the car fields of a proper list, as a function (any sequence satisfying cars_of is this one: lemma_cars_unique)
+pub open spec fn cars_fn(h: Heap, first: VCell) -> Seq<usize> { choose|c: Seq<usize>| cars_of(h, first, c) }
+pub proof fn lemma_cars_fn(h: Heap, first: VCell, c: Seq<usize>) requires cars_of(h, first, c) ensures cars_fn(h, first) == c {
+    lemma_cars_unique(h, first, cars_fn(h, first), c);
+}
+/// the car fields of the arguments m+1, m, .., 2 of an `append` call (stack order: argument 1 is the last one), concatenated in call order
+pub open spec fn app_cars(h: Heap, vm: Vm, m: nat) -> Seq<usize> decreases m {
+    if m == 0 { Seq::empty() } else { cars_fn(h, heap_deref(h, arg(vm, m as int + 1))) + app_cars(h, vm, (m - 1) as nat) }
+}
+pub open spec fn argc_is(vm: Vm, n: usize) -> bool { arg(vm, 0) == VCell::ArgumentCount(n) }
+/// the arguments 2..=n of an `append` call are () or proper lists
+pub open spec fn proper_args(h: Heap, vm: Vm, n: int) -> bool {
+    forall|i: int| 2 <= i <= n ==> (#[trigger] heap_deref(h, arg(vm, i))) is Nil || exists|c: Seq<usize>| cars_of(h, heap_deref(h, arg(vm, i)), c)
+}
+/// declared although list.rs does not call it (a change that did would be decided, not refused)
+pub assume_specification [Cell::is_list] (c: &Cell) -> (r: bool);
+/// std: `impl From<VCell> for Cow<VCell>` is Cow::Owned
+#[verifier::external_body]
+pub proof fn axiom_cow_cell_val(c: VCell) ensures cow_cell::<VCell>(c) == c {}
 /// the first j tails all are pairs (so the j-th tail exists)
 pub open spec fn has_tails(h: Heap, start: VCell, j: nat) -> bool { forall|i: nat| i < j ==> #[trigger] heap_deref(h, tail_ptr(h, start, i)) is Pair }
 '''
@@ -281,6 +376,105 @@ UNITS = [{
                             assert forall|i: int| 0 <= i < b.len() implies ((#[trigger] lcell(old(vm).heap_spec(), list, (b.len() - 1 - i) as nat)) matches VCell::Pair(x, y) && x == b[i]) by {
                                 if i > 0 { assert(b[i] == b0[i - 1]); assert((b.len() - 1 - i) as nat == (b0.len() - 1 - (i - 1)) as nat); }
                             }
+                        } _ => {} }
+                    }'''},
+            ],
+        },
+        # (append l1 .. ln): every argument but the last is copied (clone_list), the copies are chained, the last argument is shared.
+        # `for _ in 0..(argc - 1)` with a `continue` inside: pre-rewritten into the equivalent `while` loop (Verus: no `continue` in `for`)
+        '::append': {
+            'props': L,
+            'pre_rewrites': ['for_range_while'],
+            'attrs': '#[verifier::exec_allows_no_decreases_clause]',
+            'requires': REQ + [
+                # what collector soundness gives for reachable data: arguments designate allocated cells, list spines point at allocated cells
+                'forall|i: int| 1 <= i <= old(vm).stack_spec().sp_spec() ==> ((#[trigger] arg(*old(vm), i)) is Ptr ==> heap_live(old(vm).heap_spec(), arg(*old(vm), i)))',
+                'forall|i: int| 2 <= i <= old(vm).stack_spec().sp_spec() ==> spine_live(old(vm).heap_spec(), heap_deref(old(vm).heap_spec(), #[trigger] arg(*old(vm), i)))'],
+            'body_start': 'proof { axiom_vcell_into_self_l(); } let ghost h0 = vm.heap_spec(); let ghost s0 = vm.stack_spec(); let ghost mut acc: Seq<usize> = Seq::empty(); let ghost mut tail0 = VCell::Undefined;',
+            'ensures': [
+                # no allocated cell is changed: the arguments are intact
+                (['C14'], 'r is Ok ==> heap_ext(old(vm).heap_spec(), final(vm).heap_spec())'),
+                # one argument: the argument itself
+                (['C14'], 'r matches Ok(t) ==> (arg(*old(vm), 0) == VCell::ArgumentCount(1) && arg(*old(vm), 1) is Ptr ==> t == arg(*old(vm), 1))'),
+                # two arguments: () in front gives the second argument itself; otherwise as many fresh pairs as the first list has, with the
+                # very car fields of the first list, leading to the second argument itself (shared, not copied)
+                (['C14'], '''r matches Ok(t) ==> (arg(*old(vm), 0) == VCell::ArgumentCount(2) && arg(*old(vm), 1) is Ptr ==> ({
+                    let first = heap_deref(old(vm).heap_spec(), arg(*old(vm), 2));
+                    &&& first is Nil ==> t == arg(*old(vm), 1)
+                    &&& first is Pair ==> forall|cars: Seq<usize>| #[trigger] cars_of(old(vm).heap_spec(), first, cars) ==> leads(final(vm).heap_spec(), t, cars, arg(*old(vm), 1))
+                }))'''),
+                # any number of arguments, each but the last a proper list or (): the result is a path of allocated pairs whose car fields are
+                # those of the arguments in call order, ending in the last argument itself
+                (['C14'], '''r matches Ok(t) ==> forall|n: usize| (#[trigger] argc_is(*old(vm), n) && n >= 1 && arg(*old(vm), 1) is Ptr
+                    && proper_args(old(vm).heap_spec(), *old(vm), n as int))
+                    ==> leads(final(vm).heap_spec(), t, app_cars(old(vm).heap_spec(), *old(vm), (n - 1) as nat), arg(*old(vm), 1))'''),
+            ],
+            'loops': {0: '''invariant
+                    vm.stack_spec().wf(), heap_ext(h0, vm.heap_spec()), vm.stack_spec().cells() == s0.cells(), s0 == old(vm).stack_spec(), h0 == old(vm).heap_spec(),
+                    s0.sp_spec() >= 2, vm.stack_spec().sp_spec() + __k + 2 == s0.sp_spec(), __n == argc - 1, __k <= __n, arg(*old(vm), 0) == VCell::ArgumentCount(argc),
+                    <VCell as vstd::std_specs::convert::IntoSpec<VCell>>::obeys_into_spec(), forall|c: VCell| #[trigger] <VCell as vstd::std_specs::convert::IntoSpec<VCell>>::into_spec(c) == c,
+                    forall|i: int| 1 <= i <= s0.sp_spec() ==> ((#[trigger] arg(*old(vm), i)) is Ptr ==> heap_live(h0, arg(*old(vm), i))),
+                    forall|i: int| 2 <= i <= s0.sp_spec() ==> spine_live(h0, heap_deref(h0, #[trigger] arg(*old(vm), i))),
+                    arg(*old(vm), 1) is Ptr ==> tail0 == arg(*old(vm), 1),
+                    leads(vm.heap_spec(), tail, acc, tail0),
+                    __k == 0 ==> acc.len() == 0,
+                    proper_args(h0, *old(vm), argc as int) ==> acc == app_cars(h0, *old(vm), __k as nat),
+                    (__k == 1 && heap_deref(h0, arg(*old(vm), 2)) is Nil) ==> acc.len() == 0,
+                    (__k == 1 && heap_deref(h0, arg(*old(vm), 2)) is Pair) ==> cars_of(h0, heap_deref(h0, arg(*old(vm), 2)), acc),'''},
+            'loop_count': 1,
+            'inserts': [
+                # right before the loop (the text the pre-rewrite for_range_while generates)
+                {'anchor': '{ let mut __k: usize = 0;', 'where': 'before', 'text': 'proof { tail0 = tail; }'},
+                {'anchor': 'Ok(tail)', 'where': 'before', 'text': '''proof {
+                        let first = heap_deref(h0, arg(*old(vm), 2));
+                        if argc == 2 && first is Pair {
+                            assert forall|cars: Seq<usize>| #[trigger] cars_of(h0, first, cars) implies leads(vm.heap_spec(), tail, cars, tail0) by { lemma_cars_unique(h0, first, cars, acc); }
+                        }
+                    }'''},
+                {'loop_start': 0, 'text': 'let ghost hb = vm.heap_spec(); let ghost tail_b = tail; let ghost acc_b = acc; let ghost kb = __k;'},
+                {'anchor': 'let list = vm.heap.get(vm.stack.pop()?.clone());', 'where': 'after', 'text': '''proof {
+                        let a = arg(*old(vm), kb as int + 2);
+                        axiom_cow_cell_val(a);
+                        assert(list == heap_deref(hb, a));
+                        axiom_deref_immediate(hb, a); axiom_deref_immediate(h0, a);
+                        assert(heap_deref(hb, a) == heap_deref(h0, a));
+                        lemma_spine_live_preserved(h0, hb, list);
+                    }'''},
+                {'anchor': 'continue;', 'where': 'before', 'text': '''proof {
+                        // () contributes no car fields
+                        assert(cars_of(h0, list, Seq::<usize>::empty()));
+                        lemma_cars_fn(h0, list, Seq::<usize>::empty());
+                        assert(app_cars(h0, *old(vm), (kb + 1) as nat) =~= Seq::<usize>::empty() + app_cars(h0, *old(vm), kb as nat));
+                    }'''},
+                {'anchor': 'let (head, sub_tail) = clone_list(vm, list)?;', 'where': 'after', 'text': '''let ghost hc = vm.heap_spec();
+                    let ghost (gcells, gcars, gnil) = choose|cells: Seq<usize>, cars: Seq<usize>, nilp: usize| #[trigger] cloned(hb, hc, list, head, sub_tail, cells, cars, nilp);
+                    proof { axiom_cow_cell_ref(&sub_tail); axiom_live_ptr(hc, gcells[gcells.len() - 1]); }'''},
+                {'anchor': 'tail = head;', 'where': 'before', 'text': '''proof {
+                        let hp = vm.heap_spec(); let n = gcells.len() as int; let last = gcells[n - 1];
+                        match tail_b { VCell::Ptr(tp) => {
+                            // the patched cell is fresh relative to hb: everything allocated before this round is intact
+                            assert forall|c: VCell| #[trigger] heap_live(hb, c) implies heap_live(hp, c) && heap_deref(hp, c) == heap_deref(hb, c) by {
+                                assert(heap_live(hc, c) && heap_deref(hc, c) == heap_deref(hb, c));
+                                assert(sub_tail == VCell::Ptr(last));
+                                assert(heap_live(hp, c) == heap_live(hc, c));
+                                match c { VCell::Ptr(q) => { assert(!heap_live(hb, VCell::Ptr(last))); assert(q != last); assert(heap_deref(hp, VCell::Ptr(q)) == heap_deref(hc, VCell::Ptr(q))); } _ => { assert(heap_deref(hp, c) == heap_deref(hc, c)); } }
+                            }
+                            assert(links(hp, gcells, gcars, tp)) by {
+                                assert forall|i: int| 0 <= i < n implies heap_live(hp, VCell::Ptr(gcells[i]))
+                                    && heap_deref(hp, VCell::Ptr(gcells[i])) == VCell::Pair(#[trigger] gcars[i], if i + 1 < n { gcells[i + 1] } else { tp }) by {
+                                    assert(heap_live(hc, VCell::Ptr(gcells[i])));
+                                    assert(heap_deref(hc, VCell::Ptr(gcells[i])) == VCell::Pair(gcars[i], if i + 1 < n { gcells[i + 1] } else { gnil }));
+                                    if i < n - 1 { assert(gcells[i] != last); }
+                                }
+                            }
+                            lemma_chain_leads(hp, gcells, gcars, tp, 0);
+                            assert(gcars.subrange(0, gcars.len() as int) =~= gcars);
+                            lemma_leads_preserved(hb, hp, tail_b, acc_b, tail0);
+                            lemma_leads_concat(hp, head, gcars, tail_b, acc_b, tail0);
+                            acc = gcars + acc_b;
+                            lemma_cars_of_same(h0, hb, list, gcars);
+                            lemma_cars_fn(h0, list, gcars);
+                            if kb == 0 { assert(gcars + acc_b =~= gcars); }
                         } _ => {} }
                     }'''},
             ],
